@@ -230,3 +230,27 @@ func VerifH_C13_success() {
 		verifrt.Assert(verifrt.All(tb.refillRate == p.rate, tb.failureCount == p.fc), "C13 success during penalty changes nothing")
 	}
 }
+
+// VerifH_C16_bucket_bound: the per-host limiter table never exceeds its configured bound, whatever hosts arrive in
+// whatever order and however often each was used (non-empty host names, usage counts below 2^31-1: stated bounds).
+func VerifH_C16_bucket_bound() {
+	verifrt.MapOrderAll(true)
+	max := 1 + verifrt.Choice("max-buckets-1", 2)
+	bm := &BucketManager{buckets: make(map[string]*managedBucket), maxBuckets: max, capacity: 2, refillRate: 1}
+	hosts := []string{"a.example", "b.example", "c.example"}
+	// an arbitrary table within the bound, with arbitrary usage counts
+	pre := verifrt.Choice("entries", max+1)
+	for i := 0; i < pre; i++ {
+		uc := int(verifrt.IntRange("usage", 1, 1000))
+		bm.buckets[hosts[i]] = &managedBucket{bucket: newTokenBucket(2, 1), usageCount: uc}
+	}
+	for step := 0; step < 2; step++ {
+		h := hosts[verifrt.Choice("host", len(hosts))]
+		mb := bm.getBucket(h)
+		verifrt.Assert(mb != nil && bm.buckets[h] == mb, "C16 the requested host has its bucket")
+		verifrt.Assert(len(bm.buckets) <= max, "C16 the limiter table stays within its configured bound")
+		if len(bm.buckets) == max {
+			verifrt.Cover("table-full")
+		}
+	}
+}
